@@ -301,3 +301,37 @@ Example ex_transfer :
       ["a"; "b"; "d/c"; "g"] =
   [ None; Some ([], [120%N]); Some (bs "b", [120%N]); Some (bs "f", [121%N]) ].
 Proof. vm_compute. split; reflexivity. Qed.
+
+(* ---- the receiver's hard-link validator itself (tools/go2coq; gen/SrcFns.v is regenerated from /repo on every
+        run): the method HandleChange of Hardlinks, translated from hardlinks.go into a state transformer (the
+        map[string]struct{} seenFiles as the list of keys stored so far — the code only tests membership, so order
+        and duplicates are unobservable; the type assertion fi.Sys().( *types.Stat ) as the Sys field of the FileInfo
+        record).  For the FileInfo the receiver hands over (statinfo_fi s = the StatInfo view of s, IsDir/Mode as
+        computed by the translated StatInfo methods) and p = the stat's path, one step equals the model's hl_step;
+        deletions pass, an incoming error is handed back, a change without stat info is rejected; folded over a
+        listing it is hardlink_check, so reset_links_valid holds of the translated validator ---- *)
+From FSGen Require SrcFns.
+From FS Require Src.Prims Proofs.Src.HardlinksHandleChangeEq.
+Theorem Hardlinks_HandleChange_src_eq : forall v kind s, kind <> BinNums.Zpos (BinNums.xO BinNums.xH) ->
+  SrcFns.Hardlinks_HandleChange v kind (st_path s) (HardlinksHandleChangeEq.statinfo_fi s) None =
+  match hl_step (SrcFns.Hardlinks_seenFiles v) s with
+  | Some seen' => (HardlinksHandleChangeEq.mkh seen', None)
+  | None => (HardlinksHandleChangeEq.mkh (SrcFns.Hardlinks_seenFiles v), Prims.some_error)
+  end.
+Proof. exact HardlinksHandleChangeEq.Hardlinks_HandleChange_src_eq. Qed.
+Theorem Hardlinks_HandleChange_other : forall v p fi,
+  SrcFns.Hardlinks_HandleChange v (BinNums.Zpos (BinNums.xO BinNums.xH)) p fi None = (HardlinksHandleChangeEq.mkh (SrcFns.Hardlinks_seenFiles v), None) /\
+  (forall m kind, SrcFns.Hardlinks_HandleChange v kind p fi (Some m) = (v, Some m)) /\
+  (forall kind, kind <> BinNums.Zpos (BinNums.xO BinNums.xH) -> Prims.fi_Sys fi = None ->
+     SrcFns.Hardlinks_HandleChange v kind p fi None = (HardlinksHandleChangeEq.mkh (SrcFns.Hardlinks_seenFiles v), Prims.some_error)).
+Proof. exact HardlinksHandleChangeEq.Hardlinks_HandleChange_other. Qed.
+Theorem run_hl_is_hardlink_check : forall l,
+  HardlinksHandleChangeEq.run_hl SrcFns.Hardlinks_zero l 0 = hardlink_check l.
+Proof. exact HardlinksHandleChangeEq.run_hl_is_hardlink_check. Qed.
+Theorem translated_reset_links_valid :
+  forall l, wf_links l = true -> HardlinksHandleChangeEq.run_hl SrcFns.Hardlinks_zero (hardlink_reset l) 0 = None.
+Proof. exact HardlinksHandleChangeEq.translated_reset_links_valid. Qed.
+Print Assumptions Hardlinks_HandleChange_src_eq.
+Print Assumptions Hardlinks_HandleChange_other.
+Print Assumptions run_hl_is_hardlink_check.
+Print Assumptions translated_reset_links_valid.
